@@ -145,6 +145,7 @@ func H05_when() {
 	for e.s.HasPendingEvent() {
 		e.s.PollEvent()
 	}
+	vsymSetenv("VSYM_CLOCK", "symbolic") // arbitrary non-decreasing instants from here on
 	t0 := time.Now()
 	e.tty.inCh <- []byte{'x'}
 	vsymRunBlocked()
